@@ -461,6 +461,7 @@ func c07FieldlessRecords(r *Run) {
 func runC07(r *Run) {
 	c07FieldlessRecords(r)
 	c07Crc(r)
+	c07ManyBlocks(r)
 	nfiles := r.N(60, 500)
 	for i := 0; i < nfiles; i++ {
 		gf := genFile(r, 8)
